@@ -1,9 +1,9 @@
 """Bounded stand-in for C14 (run under /venv): point location and point evaluation of discrete functions are exact.
 Oracle, independent of the finder / probes code: every generated cell is convex with planar faces, hence equal to the convex hull of
 its vertices; its supporting half-spaces are found by brute force over all d-subsets of the cell's vertices (no reference-cell tables).
-Containment uses those half-spaces (relative tolerance 1e-9 = barycentric coordinates for simplices); whether a point on the rim of the
-domain belongs to the closed domain is decided in exact rational arithmetic.  Expected point values are the local expansion
-sum_i y[dofs[i,k]] phi_i(x) evaluated cell by cell with element.gbasis(mapping, mapping.invF(x, tind=[k]), i, tind=[k])."""
+Containment uses those half-spaces (relative tolerance 1e-9 = barycentric coordinates for simplices); whether a point on the rim of a
+cell belongs to the closed domain is decided in exact rational arithmetic.  Expected point values are the local expansion
+sum_i y[dofs[i,k]] phi_i(x), evaluated cell by cell with element.gbasis(mapping, mapping.invF(x, tind=[k]), i, tind=[k])."""
 import itertools
 import json
 import sys
@@ -30,26 +30,26 @@ def normal(a):
 
 
 class Hull:
-    """supporting half-spaces n.(x - v) >= 0 of every cell (convex hull of its vertices), vectorised over the cells."""
+    """supporting half-spaces n.(x - v) >= 0 of every cell (= convex hull of its vertices), vectorised over the cells."""
 
     def __init__(self, m):
-        P = m.p[:, m.t].astype(float)                           # (d, nv, nc)
+        P = self.P = m.p[:, m.t].astype(float)                   # (d, nv, nc)
         d, nv, nc = P.shape
-        diam = np.max(P.max(1) - P.min(1), axis=0)              # (nc,)
+        diam = np.max(P.max(1) - P.min(1), axis=0)               # (nc,)
         n_, v_, h_, on_ = [], [], [], []
         for S in itertools.combinations(range(nv), d):
-            n = np.array(normal([P[:, s, :] for s in S]))       # (d, nc)
+            n = np.array(normal([P[:, s, :] for s in S]))        # (d, nc)
             ln = np.sqrt((n ** 2).sum(0))
             good = ln > 1e-13 * diam ** (d - 1)
             n = n / np.where(good, ln, 1.0)
-            s = np.einsum("dc,dvc->vc", n, P - P[:, [S[0]], :])  # signed distance of the cell's own vertices
+            s = np.einsum("dc,dvc->vc", n, P - P[:, [S[0]], :])   # signed distances of the cell's own vertices
             sign = np.where((s >= -1e-12 * diam).all(0), 1.0, np.where((s <= 1e-12 * diam).all(0), -1.0, 0.0)) * good
             n_.append(n * sign), v_.append(P[:, S[0], :]), h_.append((s * sign).max(0)), on_.append((np.abs(s) <= 1e-12 * diam) & (sign != 0))
         self.n, self.v, self.h, self.on = np.array(n_), np.array(v_), np.array(h_), np.array(on_)   # (f,d,nc) (f,d,nc) (f,nc) (f,nv,nc)
-        self.P = P
+        self._exact = {}
 
     def inward(self, x):
-        """x (d,n) -> (dist, rel), both (nc,n): min over the cell's faces of the inward distance, absolute and relative to the cell's extent."""
+        """x (d,n) -> (dist, rel), both (nc,n): min over the cell's faces of the inward distance, absolute / relative to the cell's extent."""
         D = np.einsum("fdc,dj->fcj", self.n, x) - np.einsum("fdc,fdc->fc", self.n, self.v)[:, :, None]
         valid = (self.h > 0)[:, :, None]
         return np.where(valid, D, np.inf).min(0), np.where(valid, D / np.where(self.h > 0, self.h, 1.0)[:, :, None], np.inf).min(0)
@@ -58,31 +58,30 @@ class Hull:
         """vertex index sets of the faces of cell c."""
         return sorted({tuple(np.nonzero(o)[0]) for o in self.on[:, :, c] if o.any()})
 
-
-def exact_inside(Pc, x):
-    """exact rational arithmetic: x in the convex hull of the rows of Pc?  None if a face is planar only up to rounding (hull != cell)."""
-    V = [[Fraction(float(t)) for t in row] for row in Pc]
-    X = [Fraction(float(t)) for t in x]
-    d = len(X)
-    for S in itertools.combinations(range(len(V)), d):
-        n = normal([V[s] for s in S])
-        if not any(n):
-            continue
-        s = [sum(n[i] * (v[i] - V[S[0]][i]) for i in range(d)) for v in V]
-        sx = sum(n[i] * (X[i] - V[S[0]][i]) for i in range(d))
-        if min(s) >= 0 or max(s) <= 0:
-            if (sx < 0 and min(s) >= 0) or (sx > 0 and max(s) <= 0):
-                return False
-        elif min(float(max(s)), float(-min(s))) < 1e-9 * float(max(abs(t) for t in s)):
-            return None
-    return True
+    def exactly_inside(self, c, x):
+        """exact rational arithmetic: x in cell c?  (None if some face of the cell is planar only up to rounding, i.e. hull != cell)"""
+        if c not in self._exact:
+            V = [[Fraction(float(t)) for t in row] for row in self.P[:, :, c].T]
+            d, planes = len(V[0]), []
+            for S in itertools.combinations(range(len(V)), d):
+                n = normal([V[s] for s in S])
+                s = [sum(n[i] * (v[i] - V[S[0]][i]) for i in range(d)) for v in V]
+                if any(n) and (min(s) >= 0 or max(s) <= 0):
+                    planes.append((n, V[S[0]], 1 if min(s) >= 0 else -1))
+                elif any(n) and min(float(max(s)), float(-min(s))) < 1e-9 * float(max(abs(t) for t in s)):
+                    planes = None
+                    break
+            self._exact[c] = planes
+        X = [Fraction(float(t)) for t in x]
+        pl = self._exact[c]
+        return None if pl is None else all(sg * sum(n[i] * (X[i] - v[i]) for i in range(len(X))) >= 0 for n, v, sg in pl)
 
 
 def in_domain(hull, x, rel):
     """True where the point certainly belongs to the closed meshed domain: well inside a cell, or exactly inside one (rational test)."""
     must = rel.max(0) >= 1e-6
     for j in np.nonzero(~must)[0]:
-        must[j] = any(exact_inside(hull.P[:, :, c].T, x[:, j]) is True for c in np.nonzero(rel[:, j] >= -TOL)[0])
+        must[j] = any(hull.exactly_inside(c, x[:, j]) is True for c in np.nonzero(rel[:, j] >= -TOL)[0])
     return must
 
 
@@ -94,8 +93,7 @@ def make_points(m, hull, rng, n_int, n_vert, n_fac):
     for _ in range(n_int):
         w = .02 + rng.dirichlet(np.ones(nv)) * (1 - .02 * nv)
         pts.append(P[:, :, rng.randint(nc)] @ w), kinds.append("interior")
-    used = np.unique(m.t)
-    for v in rng.permutation(used)[:n_vert]:
+    for v in rng.permutation(np.unique(m.t))[:n_vert]:
         pts.append(m.p[:, v].astype(float)), kinds.append("vertex")
     for i in range(n_fac):
         c = rng.randint(nc)
@@ -109,28 +107,28 @@ def make_points(m, hull, rng, n_int, n_vert, n_fac):
 
 
 def outside_points(hull, rng, n):
-    """points whose distance to every cell exceeds 0.1 (outward distance to one supporting plane > 0.1), incl. notches / holes; plus far points."""
+    """points farther than 0.1 from every cell (outward distance to a supporting plane > 0.1): holes / notches first, then around, then far."""
     lo, hi = hull.P.min((1, 2)), hull.P.max((1, 2))
     x = lo[:, None] - .6 + rng.rand(len(lo), 40 * n) * (hi - lo + 1.2)[:, None]
     x = np.hstack([x, (hi + 100.)[:, None], (lo - 1e6)[:, None]])
-    dist, _ = hull.inward(x)
-    x = x[:, (dist < -0.1).all(0)]
-    inner = ((x > lo[:, None]) & (x < hi[:, None])).all(0)          # prefer points inside the bounding box (notches, holes)
-    return x[:, np.argsort(~inner, kind="stable")[:n]][:, ::-1]
+    x = x[:, (hull.inward(x)[0] < -0.1).all(0)]
+    inner = ((x > lo[:, None]) & (x < hi[:, None])).all(0)
+    a, b = x[:, inner][:, :n // 2], x[:, ~inner]
+    return np.hstack([a, b[:, :n - a.shape[1] - 2], b[:, -2:]])
 
 
 # ---------- clauses on the element finder ----------
 def clause_contains(finder, x, rel, what):
-    """FIND-CONTAINS: for points of the domain the finder returns, per point and in order, a cell containing it."""
+    """FIND-CONTAINS: for points of the closed domain the finder returns, per point and in order, a cell that contains the point."""
     try:
         r = np.asarray(finder(*x))
     except Exception as e:
-        return ["%s: finder raised %s (%s) for a query of %d point(s) of the closed meshed domain (first: %s)"
+        return ["[FIND-CONTAINS] %s: finder raised %s (%s) for a query of %d point(s) of the closed meshed domain (first: %s)"
                 % (what, type(e).__name__, e, x.shape[1], x[:, 0].tolist())]
     if r.shape != (x.shape[1],) or r.dtype.kind not in "iu" or (r < 0).any() or (r >= rel.shape[0]).any():
-        return ["%s: finder returned shape %s dtype %s range [%s,%s] for %d points" % (what, r.shape, r.dtype, r.min(), r.max(), x.shape[1])]
+        return ["[FIND-CONTAINS] %s: finder returned %s (dtype %s) for %d points, %d cells" % (what, r.tolist()[:8], r.dtype, x.shape[1], rel.shape[0])]
     bad = np.nonzero(rel[r, np.arange(len(r))] < -TOL)[0]
-    return ["%s: point %s located in cell %d which does not contain it (relative inward distance %.3e)"
+    return ["[FIND-CONTAINS] %s: point %s located in cell %d which does not contain it (relative inward distance %.3e)"
             % (what, x[:, j].tolist(), r[j], rel[r[j], j]) for j in bad[:2]]
 
 
@@ -140,39 +138,37 @@ def clause_outside(finder, x, what):
         r = finder(*x)
     except Exception:
         return []
-    return ["%s: finder returned %s instead of raising; query %s contains a point at distance > 0.1 from every cell"
+    return ["[FIND-OUTSIDE] %s: finder returned %s instead of raising; the query %s contains a point at distance > 0.1 from every cell"
             % (what, np.asarray(r).tolist()[:6], x.T.tolist()[:3])]
 
 
 def check_finder(m, rng, tier):
     import skfem as fem
-    big = tier != "quick"
     hull = Hull(m)
-    x, kinds = make_points(m, hull, rng, 60 if big else 25, 40 if big else 15, 90 if big else 36)
-    _, rel = hull.inward(x)
+    x, kinds = make_points(m, hull, rng, *((40, 20, 60) if tier == "quick" else (100, 50, 150)))
+    rel = hull.inward(x)[1]
     must = in_domain(hull, x, rel)
-    out = outside_points(hull, rng, 30 if big else 10)
+    out = outside_points(hull, rng, 10 if tier == "quick" else 30)
     fails = []
     explicit = fem.MappingAffine(m) if m.affine else fem.MappingIsoparametric(m, m.elem(), m.bndelem)
     for vname, kw in (("element_finder()", {}), ("element_finder(mapping=)", dict(mapping=explicit))):
         finder = m.element_finder(**kw)
         found = must.copy()
-        for j in range(x.shape[1]):                                                             # one point per call; rim points may raise
+        for j in range(x.shape[1]):                 # one point per call; points that are on the rim only up to rounding may raise
             if must[j] or j % 2 == 0:
                 f = clause_contains(finder, x[:, [j]], rel[:, [j]], "%s single %s point" % (vname, kinds[j]))
                 fails += f if must[j] else [t for t in f if "does not contain" in t]
                 found[j] &= not f
-        idx = np.nonzero(found)[0]                                                              # batch: any order, with repetitions
+        idx = np.nonzero(found)[0]                  # batch of the points located one by one: any order, with repetitions
         idx = rng.permutation(np.concatenate([idx, idx[rng.randint(len(idx), size=8)]]))
-        fails += clause_contains(finder, x[:, idx], rel[:, idx], vname + " batch")
+        fails += clause_contains(finder, x[:, idx], rel[:, idx], vname + " batch of points that are each located when queried alone")
         fails += clause_contains(finder, x[:, idx[[0, 0]]], rel[:, idx[[0, 0]]], vname + " same point twice")
         for o in range(out.shape[1]):
             fails += clause_outside(finder, out[:, [o]], vname + " single outside point")
-        if out.shape[1]:
-            mixed = np.hstack([x[:, idx[:5]], out[:, :1], x[:, idx[5:9]]])
-            fails += clause_outside(finder, mixed, vname + " outside point among inside points")
-            fails += clause_outside(m.element_finder(**kw), out[:, ::-1], vname + " only outside points")
-    return fails, dict(points=int(x.shape[1]), certain=int(must.sum()), outside=int(out.shape[1]))
+        mixed = np.hstack([x[:, idx[:5]], out[:, :1], x[:, idx[5:9]]])
+        fails += clause_outside(finder, mixed, vname + " outside point among inside points")
+        fails += clause_outside(m.element_finder(**kw), out[:, ::-1], vname + " only outside points")
+    return fails, dict(points=int(x.shape[1]), certainly_in_domain=int(must.sum()), outside=int(out.shape[1]))
 
 
 # ---------- clauses on probes / interpolator / point_source ----------
@@ -180,19 +176,18 @@ def local_expansions(basis, x, cand):
     """for point j and every cell k containing it: the (components x N) matrix taking y to sum_i y[dofs[i,k]] phi_i(x_j), cell by cell."""
     E = {}
     for k in np.nonzero(cand.any(1))[0]:
-        J = np.nonzero(cand[k])[0]
-        Xl = basis.mapping.invF(x[:, None, J], tind=np.array([k]))
+        J, tk = np.nonzero(cand[k])[0], np.array([k])
+        Xl = basis.mapping.invF(x[:, None, J], tind=tk)
         R = None
         for i in range(basis.Nbfun):
-            phi = np.asarray(basis.elem.gbasis(basis.mapping, Xl, i, tind=np.array([k]))[0].value)
+            phi = np.asarray(basis.elem.gbasis(basis.mapping, Xl, i, tind=tk)[0].value)
             cshape = phi.shape[:-2]
             phi = phi.reshape(-1, len(J))
-            if R is None:
-                R = np.zeros((len(J), phi.shape[0], basis.N))
+            R = np.zeros((len(J), phi.shape[0], basis.N)) if R is None else R
             R[:, :, basis.element_dofs[i, k]] += phi.T
         for jj, j in enumerate(J):
             E.setdefault(int(j), []).append(R[jj])
-    return E, cshape
+    return E, tuple(cshape)
 
 
 def close(a, b):
@@ -200,138 +195,130 @@ def close(a, b):
 
 
 def clause_values(got, E, idx, what, y=None):
-    """EVAL-EXACT: the rows for point j (component-major layout) equal the local expansion of some cell containing x_j."""
-    n = len(idx)
-    got = np.asarray(got)
-    fails = []
+    """EVAL-EXACT: the rows / values for point j (component-major layout) equal the local expansion of some cell containing x_j."""
+    n, fails = len(idx), []
     for jj, j in enumerate(idx):
         g = got[jj::n] if y is None else got.reshape(-1, n)[:, jj]
-        if not any(close(g, e if y is None else e @ y) for e in E[j]):
-            fails.append("%s: values for point #%d differ from the local expansion of every cell containing it (max diff %.3e)"
-                         % (what, jj, min(np.abs(g - (e if y is None else e @ y)).max() for e in E[j])))
-            if len(fails) == 2:
-                break
-    return fails
+        want = [e if y is None else e @ y for e in E[j]]
+        if not any(close(g, w) for w in want):
+            fails.append("[EVAL-EXACT] %s: result for point #%d differs from the local expansion of every cell containing it (max diff %.3e)"
+                         % (what, jj, min(np.abs(g - w).max() for w in want)))
+    return fails[:2]
 
 
 def check_element(m, make_elem, rng, tier):
     import skfem as fem
-    big = tier != "quick"
     hull = Hull(m)
-    x, kinds = make_points(m, hull, rng, 24 if big else 10, 16 if big else 8, 30 if big else 12)
-    _, rel = hull.inward(x)
-    x = x[:, in_domain(hull, x, rel)]
-    x = x[:, rng.permutation(x.shape[1])]
-    _, rel = hull.inward(x)
+    x, _ = make_points(m, hull, rng, *((12, 8, 16) if tier == "quick" else (40, 24, 60)))
+    rel = hull.inward(x)[1]
+    keep = rng.permutation(np.nonzero(in_domain(hull, x, rel))[0])
+    x, rel = x[:, keep], rel[:, keep]
     basis = fem.CellBasis(m, make_elem())
-    N = basis.N
-    y = rng.uniform(-1, 1, N)
+    N, y = basis.N, rng.uniform(-1, 1, basis.N)
     E, cshape = local_expansions(basis, x, rel >= -TOL)
     comp = int(np.prod(cshape))
-    h = x.shape[1] // 2
-    # two point sets of equal size, any order, with repetitions
-    i1 = rng.permutation(np.concatenate([np.arange(h), rng.randint(h, size=5)]))
-    i2 = rng.permutation(np.concatenate([np.arange(h, 2 * h), h + rng.randint(h, size=5)]))
     fails = []
-    res = {}
-    for name, idx in (("first set", i1), ("second set on the same basis", i2), ("single point", i1[:1]), ("same point twice", i2[[0, 0]])):
-        try:
-            P = basis.probes(x[:, idx])
-        except Exception as e:
-            fails.append("probes(%s) raised %s (%s) for points of the closed meshed domain, first: %s" % (name, type(e).__name__, e, x[:, idx[0]].tolist()))
-            continue
-        if P.shape != (comp * len(idx), N):
-            fails.append("probes(%s): shape %s, expected (%d components * %d points, N=%d)" % (name, P.shape, comp, len(idx), N))
-            continue
-        res[name] = P.toarray()
-        fails += clause_values(res[name], E, idx, "probes(%s) matrix" % name)
-        I = basis.interpolator(y)(x[:, idx])
-        if I.shape != tuple(cshape) + (len(idx),):
-            fails.append("interpolator(y)(%s): shape %s, expected %s" % (name, I.shape, tuple(cshape) + (len(idx),)))
-            continue
-        res[name + "/I"] = I
-        fails += clause_values(I, E, idx, "interpolator(y)(%s)" % name, y)
-    # EVAL-FRESH: the second evaluation on a used basis equals the evaluation on a fresh mesh + basis
-    fresh = fem.CellBasis(type(m)(m.p.copy(), m.t.copy()), make_elem())
-    if "second set on the same basis" in res and not np.array_equal(res["second set on the same basis"], fresh.probes(x[:, i2]).toarray()):
-        fails.append("probes: second point set on a used basis differs from the result of a fresh basis")
-    if "second set on the same basis/I" in res and not np.array_equal(res["second set on the same basis/I"], fresh.interpolator(y)(x[:, i2])):
-        fails.append("interpolator: second point set on a used basis differs from the result of a fresh basis")
-    # POINT-SOURCE (scalar elements): the vector is the probing row of the point
-    if comp == 1 and not cshape:
-        for j in i1[:4]:
-            b = np.asarray(basis.point_source(x[:, j]))
-            if b.shape != (N,) or not any(close(b, e[0]) for e in E[j]):
-                fails.append("point_source(%s): shape %s / entries differ from phi_i(x) of the containing cell" % (x[:, j].tolist(), b.shape))
-    # QUAD-POINTS: at the global quadrature points the interpolator agrees with basis.interpolate(y)
+
+    def evaluate(b, idx, what):
+        """probes(x).toarray() and interpolator(y)(x) on the points idx, checked for shape and EVAL-EXACT (None where unusable)."""
+        res = []
+        for kind, fn, shape in (("probes", lambda: b.probes(x[:, idx]).toarray(), (comp * len(idx), N)),
+                                ("interpolator(y)", lambda: np.asarray(b.interpolator(y)(x[:, idx])), cshape + (len(idx),))):
+            try:
+                r = fn()
+            except Exception as e:
+                fails.append("[FIND-CONTAINS] %s(%s) raised %s (%s) for %d point(s) of the closed meshed domain (first: %s)"
+                             % (kind, what, type(e).__name__, e, len(idx), x[:, idx[0]].tolist()))
+                r = None
+            if r is not None and r.shape != shape:
+                fails.append("[EVAL-SHAPE] %s(%s) has shape %s, expected %s (%d components, %d points, N=%d)" % (kind, what, r.shape, shape, comp, len(idx), N))
+                r = None
+            if r is not None:
+                fails.extend(clause_values(r, E, idx, "%s(%s)" % (kind, what), None if kind == "probes" else y))
+            res.append(r)
+        return res
+    # any number: every point on its own; the sets below use the points that can be located alone
+    ok = np.array([j for j in range(x.shape[1]) if evaluate(basis, np.array([j]), "single point")[0] is not None], dtype=int)
+    h = len(ok) // 2
+    i1 = rng.permutation(np.concatenate([ok[:h], ok[rng.randint(h, size=5)]]))              # any order, with repetitions
+    i2 = rng.permutation(np.concatenate([ok[h:2 * h], ok[h + rng.randint(h, size=5)]]))     # a different set of the same size
+    evaluate(basis, i1, "first set")
+    evaluate(basis, i1[[0, 0]], "same point twice")
+    # EVAL-FRESH: the second set evaluated on the used basis equals its evaluation on a fresh mesh + basis (rim points: any containing cell)
+    second = evaluate(basis, i2, "second set on the used basis")
+    fresh = evaluate(fem.CellBasis(type(m)(m.p.copy(), m.t.copy()), make_elem()), i2, "second set on a fresh basis")
+    for a, b, kind in zip(second, fresh, ("probes", "interpolator")):
+        if a is not None and b is not None:
+            diff = np.abs(a - b).reshape(comp, len(i2), -1).max((0, 2))
+            if any(dj > VTOL * max(1.0, np.abs(b).max()) and len(E[j]) == 1 for dj, j in zip(diff, i2)):
+                fails.append("[EVAL-FRESH] %s: second point set on a used basis differs from a fresh basis (max diff %.3e)" % (kind, diff.max()))
+    # POINT-SOURCE (scalar elements): the vector of a point holds phi_i(x) of a containing cell at dofs[i,k] and zero elsewhere
+    for j in (ok[:6] if cshape == () else []):
+        b = np.asarray(basis.point_source(x[:, j]))
+        if b.shape != (N,) or not any(close(b, e[0]) for e in E[j]):
+            fails.append("[POINT-SOURCE] point_source(%s): shape %s / entries differ from phi_i(x) of every containing cell" % (x[:, j].tolist(), b.shape))
+    # QUAD-POINTS: at the global quadrature points of every cell the interpolator agrees with basis.interpolate(y)
     xq = basis.mapping.F(basis.X)                                   # (d, ncells, nqp)
     want = np.asarray(basis.interpolate(y).value)
-    got = basis.interpolator(y)(xq.reshape(xq.shape[0], -1))
-    if got.size != want.size or not close(np.asarray(got).reshape(want.shape), want):
-        fails.append("interpolator(y) at the quadrature points differs from basis.interpolate(y) (max diff %s)"
-                     % (np.abs(np.asarray(got).reshape(want.shape) - want).max() if got.size == want.size else "shape %s" % (got.shape,)))
-    if not cshape:
-        got3 = basis.interpolator(y)(xq)                            # trailing-axes form (scalar elements)
-        if got3.shape != want.shape or not close(got3, want):
-            fails.append("interpolator(y)(x of shape (d, cells, qp)) differs from basis.interpolate(y)")
+    forms = [("(d, cells*qp)", xq.reshape(xq.shape[0], -1))] + ([("(d, cells, qp)", xq)] if cshape == () else [])
+    for form, xx in forms:
+        got = np.asarray(basis.interpolator(y)(xx))
+        if got.size != want.size or not close(got.reshape(want.shape), want):
+            fails.append("[QUAD-POINTS] interpolator(y)(x of shape %s) differs from basis.interpolate(y): shape %s, max diff %s"
+                         % (form, got.shape, np.abs(got.reshape(want.shape) - want).max() if got.size == want.size else "n/a"))
     return fails, dict(points=int(x.shape[1]), N=int(N), components=comp)
 
 
 # ---------- the enumerated family ----------
-def extra_meshes(tier):
+def extra_meshes():
     """graded / anisotropic / sheared / tapered cells and non-convex domains (hole, L); all coordinates dyadic -> faces exactly planar."""
     import skfem as fem
-    g = np.array([0., 1 / 64, 1 / 8, 1.])
-    u = np.array([0., .25, .75, 1.])
-    out = [("line-graded", fem.MeshLine(np.array([0., 1 / 64, 1 / 8, .5, 2.])))]
+    A = np.array
+    u, h, g = A([0., .25, .75, 1.]), A([0., .5, 1.]), A([0., 1 / 64, 1 / 8, 1.])
 
-    def shear(m, f):
+    def warp(m, f):
         return type(m)(f(m.p.copy()), m.t.copy())
 
     def drop(m, pred):
         return m.remove_elements(np.nonzero(pred(m.p[:, m.t].mean(1)))[0])
-    centre = lambda c: (abs(c[0] - .5) < .25) & (abs(c[1] - .5) < .25)      # noqa: E731
-    corner = lambda c: (c[0] > .5) & (c[1] > .5)                            # noqa: E731
-    tri = fem.MeshTri.init_tensor(g, np.array([0., .5, 1.]))
-    out.append(("tri-graded-aniso", tri))
-    out.append(("tri-graded-sheared", shear(tri, lambda p: np.array([p[0] + .5 * p[1], p[1]]))))
-    out.append(("tri-hole", drop(fem.MeshTri.init_tensor(u, u), centre)))
-    quad = fem.MeshQuad.init_tensor(np.array([0., 1 / 16, .5, 1.]), np.array([0., .5, 1.]))
-    out.append(("quad-trapezoids", shear(quad, lambda p: np.array([p[0] * (1 - .5 * p[1]), p[1] + .25 * p[0]]))))
-    out.append(("quad-hole", drop(fem.MeshQuad.init_tensor(u, u), centre)))
-    h = np.array([0., .5, 1.])
-    out.append(("tet-graded-sheared", shear(fem.MeshTet.init_tensor(np.array([0., 1 / 16, 1.]), h, np.array([0., 1.])),
-                                            lambda p: np.array([p[0] + .5 * p[2], p[1], p[2]]))))
-    out.append(("tet-L", drop(fem.MeshTet.init_tensor(h, h, np.array([0., 1.])), corner)))
-    taper = lambda p: np.array([.5 + (p[0] - .5) * (1 - .5 * p[2]), .5 + (p[1] - .5) * (1 - .5 * p[2]), p[2]])   # noqa: E731
-    out.append(("hex-frusta-L", shear(drop(fem.MeshHex.init_tensor(h, h, h), corner), taper)))
-    out.append(("wedge-graded-sheared", shear(fem.MeshTri.init_tensor(np.array([0., 1 / 8, 1.]), h) * fem.MeshLine(np.array([0., 1 / 8, 1.])),
-                                              lambda p: np.array([p[0] + .5 * p[2], p[1], p[2]]))))
-    return out
+
+    def centre(c):
+        return (abs(c[0] - .5) < .25) & (abs(c[1] - .5) < .25)
+
+    def corner(c):
+        return (c[0] > .5) & (c[1] > .5)
+    tri = fem.MeshTri.init_tensor(g, h)
+    return [("line-graded", fem.MeshLine(A([0., 1 / 64, 1 / 8, .5, 2.]))),
+            ("tri-graded-aniso", tri),
+            ("tri-graded-sheared", warp(tri, lambda p: A([p[0] + .5 * p[1], p[1]]))),
+            ("tri-hole", drop(fem.MeshTri.init_tensor(u, u), centre)),
+            ("quad-trapezoids", warp(fem.MeshQuad.init_tensor(A([0., 1 / 16, .5, 1.]), h), lambda p: A([p[0] * (1 - .5 * p[1]), p[1] + .25 * p[0]]))),
+            ("quad-hole", drop(fem.MeshQuad.init_tensor(u, u), centre)),
+            ("tet-graded-sheared", warp(fem.MeshTet.init_tensor(A([0., 1 / 16, 1.]), h, A([0., 1.])), lambda p: A([p[0] + .5 * p[2], p[1], p[2]]))),
+            ("tet-L", drop(fem.MeshTet.init_tensor(h, h, A([0., 1.])), corner)),
+            ("hex-frusta-L", warp(drop(fem.MeshHex.init_tensor(h, h, h), corner),
+                                  lambda p: A([.5 + (p[0] - .5) * (1 - .5 * p[2]), .5 + (p[1] - .5) * (1 - .5 * p[2]), p[2]]))),
+            ("wedge-graded-sheared", warp(fem.MeshTri.init_tensor(A([0., 1 / 8, 1.]), h) * fem.MeshLine(A([0., 1 / 8, 1.])),
+                                          lambda p: A([p[0] + .5 * p[2], p[1], p[2]])))]
 
 
 def elements_for(m):
     import skfem as fem
     n = type(m).__name__
-    if n.startswith("MeshLine"):
-        return [("LineP1", fem.ElementLineP1), ("LineP2", fem.ElementLineP2)]
     if n.startswith("MeshTri"):
         return [("TriP1", fem.ElementTriP1), ("TriP2", fem.ElementTriP2), ("Vector(TriP2)", lambda: fem.ElementVector(fem.ElementTriP2())),
                 ("TriRT1", fem.ElementTriRT1), ("TriN1", fem.ElementTriN1),
                 ("Vector(Vector(TriP1))", lambda: fem.ElementVector(fem.ElementVector(fem.ElementTriP1())))]
-    if n.startswith("MeshQuad"):
-        return [("Quad1", fem.ElementQuad1), ("Quad2", fem.ElementQuad2)]
-    if n.startswith("MeshTet"):
-        return [("TetP1", fem.ElementTetP1), ("TetP2", fem.ElementTetP2)]
-    if n.startswith("MeshHex"):
-        return [("Hex1", fem.ElementHex1)]
-    return [("Wedge1", fem.ElementWedge1)]
+    return {"MeshLine1": [("LineP1", fem.ElementLineP1), ("LineP2", fem.ElementLineP2)],
+            "MeshQuad1": [("Quad1", fem.ElementQuad1), ("Quad2", fem.ElementQuad2)],
+            "MeshTet1": [("TetP1", fem.ElementTetP1), ("TetP2", fem.ElementTetP2)],
+            "MeshHex1": [("Hex1", fem.ElementHex1)], "MeshWedge1": [("Wedge1", fem.ElementWedge1)]}[n]
 
 
 def all_meshes(tier, seed):
     yield from Z.zoo(tier, seed)
     rng = np.random.RandomState(2000 + seed)
-    for label, m in extra_meshes(tier):
+    for label, m in extra_meshes():
         yield label, m
         for v in range(1 if tier == "quick" else 3):
             yield "%s~r%d" % (label, v), Z.renumbered(m, rng)[0]
@@ -340,35 +327,38 @@ def all_meshes(tier, seed):
 def run(payload):
     tier, seed, only = payload.get("tier", "quick"), int(payload.get("seed", 0)), payload.get("only")
     master = np.random.RandomState(seed)
-    cases, failures, samples = 0, [], []
+    cases, failures, samples = 0, {}, []
     for mlabel, m in all_meshes(tier, seed):
         for ename, make in [("finder", None)] + elements_for(m):
             label = "%s|%s" % (mlabel, ename)
-            sub = master.randint(2 ** 31 - 1)                  # one sub-seed per case, drawn in enumeration order -> replayable with "only"
+            rng = np.random.RandomState(master.randint(2 ** 31 - 1))   # one sub-seed per case, drawn in enumeration order -> replayable with "only"
             if only and only != label:
                 continue
             cases += 1
-            rng = np.random.RandomState(sub)
             try:
                 fl, info = check_finder(m, rng, tier) if make is None else check_element(m, make, rng, tier)
             except Exception as e:
                 import traceback
-                fl, info = ["exception %s: %s | %s" % (type(e).__name__, e, traceback.format_exc()[-400:])], {}
+                fl, info = ["[EXCEPTION] %s: %s | %s" % (type(e).__name__, e, traceback.format_exc()[-400:])], {}
             if len(samples) < 3:
                 samples.append(dict(case=label, cells=int(m.t.shape[1]), **info))
             for f in fl[:3]:
-                failures.append(dict(input=dict(case=label, p=m.p.tolist() if m.p.size < 80 else "see zoo/extra_meshes", t=m.t.tolist() if m.t.size < 120 else "see zoo/extra_meshes"),
-                                     observed=f, replay=dict(kind="points_case", only=label, tier=tier, seed=seed)))
+                small = m.p.size < 80 and m.t.size < 120
+                failures.setdefault(f.split("]")[0], []).append(dict(
+                    input=dict(case=label, p=m.p.tolist() if small else "see zoo / extra_meshes", t=m.t.tolist() if small else "see zoo / extra_meshes"),
+                    observed=f, replay=dict(kind="points_case", only=label, tier=tier, seed=seed)))
+    nfail = sum(len(v) for v in failures.values())
+    shown = [f for row in itertools.zip_longest(*failures.values()) for f in row if f is not None][:20]    # round robin over the clauses
     q = tier == "quick"
-    bound = (Z.describe(tier) + "; plus graded/anisotropic/sheared/tapered and non-convex (hole, L) meshes %s, each also under %d renumberings. "
-             "Per mesh one finder case (with and without mapping=): %d interior + up to %d vertex + %d face/edge/diagonal points queried as a shuffled batch with "
-             "repetitions, one by one and twice, and up to %d points farther than 0.1 from every cell (bounding box +0.6 incl. holes/notches, far points) "
-             "alone and mixed into batches; and one case per element (%s): probes / interpolator / point_source on two equal-size shuffled point sets with "
-             "repetitions (%d+%d+%d generated points), a single point, a point twice, a fresh-basis comparison, and all quadrature points vs interpolate(); "
-             "random coefficient vector (probes matrix itself is compared, i.e. all coefficient vectors)."
-             % ([l for l, _ in extra_meshes(tier)], 1 if q else 3, 25 if q else 60, 15 if q else 40, 36 if q else 90, 10 if q else 30,
-                "Line P1 P2; Tri P1 P2 Vector(P2) RT1 N1 Vector(Vector(P1)); Quad 1 2; Tet P1 P2; Hex1; Wedge1", 10 if q else 24, 8 if q else 16, 12 if q else 30))
-    return dict(cases=cases, failures=failures[:20], samples=samples, nontrivial=cases, bound=bound)
+    bound = (Z.describe(tier) + "; plus graded / anisotropic / sheared / tapered meshes and non-convex domains (hole, L) %s, each also under %d renumbering(s). "
+             "Per mesh one finder case (element_finder() and element_finder(mapping=)): %s interior / vertex / face-edge-diagonal points of the closed domain "
+             "queried one by one, as a shuffled batch with repetitions and twice; %d points farther than 0.1 from every cell (holes, notches, bounding box "
+             "+0.6, far away) alone and mixed into batches.  Per mesh and element (Line P1 P2; Tri P1 P2 Vector(P2) RT1 N1 Vector(Vector(P1)); Quad 1 2; "
+             "Tet P1 P2; Hex1; Wedge1) one case: probes / interpolator on %s such points one by one, as two equal-size shuffled sets with repetitions, a point "
+             "twice, used-vs-fresh basis, point_source at 6 points, all quadrature points vs interpolate(); the probes matrix itself is compared (= all "
+             "coefficient vectors), the interpolator with one random vector."
+             % ([l for l, _ in extra_meshes()], 1 if q else 3, "40/20/60" if q else "100/50/150", 10 if q else 30, "12/8/16" if q else "40/24/60"))
+    return dict(cases=cases, failures=shown, nfailures=nfail, samples=samples, nontrivial=cases, bound=bound)
 
 
 def replay_points_case(sp):
